@@ -118,6 +118,12 @@ fn cmd_conn_trace(a: &HashMap<String, String>) -> i32 {
             seed: seed.wrapping_mul(1000).wrapping_add(s),
             writes,
             cancels: cancels && fl == "tokio",
+            wseg: a.get("wseg").and_then(|s| s.parse().ok()),
+            noka: a.get("noka").map(|s| s == "1").unwrap_or(false),
+            kaheavy: a.get("kaheavy").map(|s| s == "1").unwrap_or(false),
+            fixed: None,
+            seg: None,
+            p_err: None,
         };
         let evs = if fl == "blocking" { conn::trace_blocking(pool, &tc) } else { conn::trace_tokio(pool, &tc) };
         for e in evs {
@@ -126,6 +132,22 @@ fn cmd_conn_trace(a: &HashMap<String, String>) -> i32 {
         }
     }
     println!("{}", json!({"events": total, "sessions": sessions}));
+    0
+}
+
+/// conn-sweep --what tiny|version --out file
+fn cmd_conn_sweep(a: &HashMap<String, String>) -> i32 {
+    let out = a.get("out").expect("--out");
+    let what = a.get("what").cloned().unwrap_or_else(|| "tiny".into());
+    let seed: u64 = a.get("seed").and_then(|s| s.parse().ok()).unwrap_or(1);
+    let per: usize = a.get("per").and_then(|s| s.parse().ok()).unwrap_or(400);
+    let half = a.get("half").map(|s| s == "1").unwrap_or(false);
+    let (evs, info) = conn::sweep(&what, seed, per, half);
+    let mut w = std::io::BufWriter::new(std::fs::File::create(out).expect("create trace"));
+    for e in evs {
+        let _ = writeln!(w, "{}", e);
+    }
+    println!("{}", info);
     0
 }
 
@@ -143,6 +165,7 @@ fn main() {
         },
         "conn-replay" => cmd_conn_replay(&a),
         "conn-trace" => cmd_conn_trace(&a),
+        "conn-sweep" => cmd_conn_sweep(&a),
         _ => {
             eprintln!("usage: lfsverif <command> ...");
             2
